@@ -32,7 +32,7 @@ def how_coq(h):
     return ('HExit (%d)' if h[0] == 'exit' else 'HSignal (%d)') % h[1]
 
 
-def run_ag(nruns, plan_by_run, njobs=1):
+def run_ag(nruns, plan_by_run, njobs=1, text=None):
     """plan_by_run: {run index: behaviour}; returns (outcome, leftover entries)"""
     d = tempfile.mkdtemp(prefix='c16-ag-')
     nthreads = threading.active_count()      # the main thread, plus joblib's process-pool threads once dpseg ran with several jobs
@@ -45,7 +45,7 @@ def run_ag(nruns, plan_by_run, njobs=1):
         json.dump(plan, open(pf, 'w'))
         os.environ['AG_STUB_PLAN'] = pf
         try:
-            out = ag.segment(list(TEXT), args='-n 4 -x 2 -r %d' % seed, nruns=nruns, njobs=njobs, tempdir=work)
+            out = ag.segment(list(text or TEXT), args='-n 4 -x 2 -r %d' % seed, nruns=nruns, njobs=njobs, tempdir=work)
             res = ('ok', out)
         except Exception as e:  # noqa
             res = ('raise', type(e).__name__)
@@ -251,6 +251,13 @@ def main():
         plan = {i: dict(how=list(how), early=True, big_input=True)}
         scs.append(('dpseg', n, plan))
         observed.append(run_dpseg(n, plan, text=big))
+    # a non-ASCII text, the output of the failing run stopping INSIDE a multi-byte character
+    text_u = ['ð ə k', 'æ t ð', 'ə ə']
+    for n, i, how, pt in ((1, 0, HOWS[0], dict(complete=1, partial=0, cut_bytes=2)), (2, 1, HOWS[2], dict(complete=0, partial=1, cut_bytes=2)),
+                          (3, 0, HOWS[3], dict(complete=2, partial=2, cut_bytes=2))):
+        plan = {i: dict(pt, how=list(how), non_ascii=True)}
+        scs.append(('ag', n, plan))
+        observed.append(run_ag(n, plan, text=text_u))
     # several jobs (after the sequential scenarios: see par_setup)
     njobs_obs = []
     for kind, n, plan, nj in parallel_scenarios(ck, scs):
